@@ -25,8 +25,8 @@
      specification in dirty mode (C02 requires such files not to be re-sent): see
      [unrestricted_convergence_refuted]. *)
 From Coq Require Import List NArith Bool Sorting.Sorted.
-From FS Require Import Sx Model.Path Model.Stat Model.Tree Model.Diff Model.AbsDest Model.Converge Model.ConvergeA
-  Proofs.Lex Proofs.DiffP Proofs.ReceiveP Proofs.OracleP Proofs.ConvergeP Proofs.MergeP.
+From FS Require Import Sx Model.Path Model.Stat Model.Tree Model.Walk Model.Diff Model.AbsDest Model.Converge Model.ConvergeA
+  Proofs.Lex Proofs.DiffP Proofs.ReceiveP Proofs.OracleP Proofs.ConvergeP Proofs.MergeP Proofs.WalkWfP Proofs.DirTimesP.
 Import ListNotations.
 Open Scope N_scope.
 
@@ -108,6 +108,52 @@ Theorem unrestricted_convergence_refuted :
       ds_err r = false /\ ds_reqs r = [] /\ ~ approx A B (view_of (ds_map r)).
 Proof. exact unrestricted_convergence_refuted_proof. Qed.
 
+(* Composition Walk -> Diff -> AbsDest.  The listing that the walk model of C09 (Model/Walk.v)
+   produces for ANY well-formed tree — every Stat paired with the bytes of its inode ([cont]:
+   contents per lstat record) — satisfies the hypotheses: strictly ascending, ancestor-closed,
+   canonical hard links.  Beyond wf_tree: [ino_consistent] (C09: st_nlink counts every name of an
+   inode) and [inode_coherent] (two non-directory names with one inode number show the same
+   lstat record; contains C09's one_fs). *)
+Theorem walk_views_are_wf : forall (cont : lrec -> bytes) t,
+  wf_tree t -> ino_consistent t -> inode_coherent t ->
+  wf_entries (walk_entries cont t) /\ map fst (walk_entries cont t) = walk t.
+Proof. exact walk_views_are_wf_proof. Qed.
+
+(* ... so the convergence theorem applies to every real pair of (quiescent) trees. *)
+Theorem converges_on_walked_trees : forall (H : bytes -> bytes) (hdr : stat -> bytes) d contA tA contB tB,
+  wf_tree tA -> ino_consistent tA -> inode_coherent tA ->
+  wf_tree tB -> ino_consistent tB -> inode_coherent tB ->
+  let A := walk_entries contA tA in
+  let B := walk_entries contB tB in
+  AbsDest.identity_faithful d A B ->
+  let r := receive_abs H hdr Fresh d A B in
+  ds_err r = false /\ approx A B (view_of (ds_map r)).
+Proof.
+  intros H hdr d contA tA contB tB WA IA CA WB IB CB A B Hf.
+  destruct (walk_views_are_wf_proof contA tA WA IA CA) as [[HwA HlA] _].
+  destruct (walk_views_are_wf_proof contB tB WB IB CB) as [[HwB HlB] _].
+  exact (diff_apply_converges_proof H hdr d A B HwA HwB HlA HlB Hf).
+Qed.
+
+(* Directory mtimes.  [receive_t] (Model/ConvergeA.v) runs the same writer with the on-disk
+   behaviour of directory mtimes: every create / rename-into-place / remove stamps the parent
+   directory with the current time ([now i], arbitrary), Mkdir records the path in dirModTimes,
+   and DiskWriter.Wait re-applies the recorded mtimes.  Its map IS the map of receive_abs, and the
+   view with the mtimes the directories really show ([view_t]) is ≈ the source: the directories
+   created by this transfer show the source's mtime.  Pre-existing directories are not claimed
+   (example_dir_mtimes: such a directory ends with the time of the last change below it). *)
+Theorem dir_mtimes_fresh : forall (H : bytes -> bytes) (hdr : stat -> bytes) (now : N -> N) d A B,
+  wf_entries A -> wf_entries B -> AbsDest.identity_faithful d A B ->
+  let s := receive_t now Fresh d A B in
+  ts_err s = false /\ ts_map s = ds_map (receive_abs H hdr Fresh d A B) /\ approx A B (view_t s).
+Proof. exact dir_mtimes_fresh_proof. Qed.
+
+Theorem dir_mtimes_merge : forall (H : bytes -> bytes) (hdr : stat -> bytes) (now : N -> N) d A B,
+  wf_listing (map fst A) -> wf_entries B ->
+  let s := receive_t now Merge d A B in
+  ts_err s = false /\ ts_map s = ds_map (receive_abs H hdr Merge d A B) /\ approx_merge A B (view_t s).
+Proof. exact dir_mtimes_merge_proof. Qed.
+
 Print Assumptions diff_apply_converges.
 Print Assumptions merge_is_overlay.
 Print Assumptions converges_from_any_prior.
@@ -115,6 +161,10 @@ Print Assumptions oracle_sound.
 Print Assumptions oracle_iff.
 Print Assumptions model_passes_oracle.
 Print Assumptions unrestricted_convergence_refuted.
+Print Assumptions walk_views_are_wf.
+Print Assumptions converges_on_walked_trees.
+Print Assumptions dir_mtimes_fresh.
+Print Assumptions dir_mtimes_merge.
 
 (* ------------------------------------------------------------------ examples *)
 Definition mk (p : bytes) (mode uid gid size mtime : N) (ln : bytes) (xa : list (bytes * bytes)) : stat :=
@@ -171,4 +221,32 @@ Example example_oracle_rejects :
   converged_o false exA exB (view_of (dest_of exA)) = false
   /\ converged_o false collide_A collide_B
        (view_of (ds_map (receive_abs Hx hx Fresh DMetadata collide_A collide_B))) = false.
+Proof. vm_compute. split; reflexivity. Qed.
+
+(* directory mtimes: d/ is created by the transfer and gets a child afterwards — after Wait it
+   shows the source's mtime 8; the pre-existing a/ (metadata rewritten in place, then a/z linked
+   into it) ends with the clock value of that later change, which the relation does not claim *)
+Definition pd := [100]. Definition p_df := [100; 47; 102].
+Definition exB2 : list AbsDest.entry := exB ++ [ (dir pd 493 8, []); (mk p_df 420 0 0 1 3 [] [], [9]) ].
+Definition clock (i : N) : N := 1000 + i.
+
+Example example_dir_mtimes :
+  let s := receive_t clock Fresh DMetadata exA exB2 in
+  ts_err s = false
+  /\ option_map o_mtime (find_obs pd (view_t s)) = Some 8
+  /\ option_map o_mtime (find_obs pa (view_t s)) = Some 1002
+  /\ converged_o false exA exB2 (view_t s) = true.
+Proof. vm_compute. repeat split; reflexivity. Qed.
+
+(* the walk of a small tree with a hard-link pair gives a well-formed listing *)
+Definition lr (mode ino nlink : N) : lrec :=
+  {| l_mode := mode; l_uid := 0; l_gid := 0; l_size := 3; l_mtime := 5; l_rdev := 0; l_ino := ino;
+     l_nlink := nlink; l_target := []; l_xattrs := []; l_dev := 1 |}.
+Definition ex_tree : tree :=
+  T (lr 16877 1 2) [ ([97], T (lr 16877 2 2) [ ([120], T (lr 33188 10 2) []) ]);
+                      ([98], T (lr 33188 10 2) []) ].
+Example example_walk_wf :
+  wf_entries_b (walk_entries (fun r => [l_ino r]) ex_tree) = true
+  /\ map (fun e => (st_path (fst e), st_linkname (fst e))) (walk_entries (fun r => [l_ino r]) ex_tree)
+     = [([97], []); ([97; 47; 120], []); ([98], [97; 47; 120])].
 Proof. vm_compute. split; reflexivity. Qed.
